@@ -118,6 +118,7 @@ func ProfileFor(prop string) *Profile {
 		w["put"], w["update"], w["delete"], w["get"], w["scan"], w["query"] = 4, 1.5, 1, 1, 0.7, 0.7
 		w["open"], w["resume"], w["batchw"] = 0.4, 0.8, 0.5
 		w["native"] = 0.9
+		w["toggle"] = 0.3
 		p.FaultFree = 0
 	case "C19":
 		p.MinClients, p.MaxClients = 1, 1
@@ -126,6 +127,7 @@ func ProfileFor(prop string) *Profile {
 		w["batchw"], w["batchg"] = 5, 3
 		w["put"], w["update"], w["delete"], w["get"] = 2, 1, 1, 0.5
 		w["batchbad"], w["idxtype"], w["batchpartial"] = 0.3, 0.1, 0.4
+		p.AltKeyStyles, p.AltKeyProb = []string{"numeric"}, 0.25
 	default:
 		return nil
 	}
